@@ -189,7 +189,7 @@ theorem blocked_caller (s : St) (hi : Inv s) (hb : Blocked s) (c : Caller) (hc :
   | rdWait sid w =>
     cases w with
     | false => exact Or.inl ⟨sid, rfl⟩
-    | true => simp [callerStep, hi0] at h0
+    | true => simp [callerStep, hi0, hi.lost] at h0
   | wrBegin =>
     exfalso
     simp only [callerStep, hi0, hl, Option.isNone_none, ite_true] at h0
@@ -208,7 +208,7 @@ theorem blocked_caller (s : St) (hi : Inv s) (hb : Blocked s) (c : Caller) (hc :
     split at h0 <;> simp at h0
   | shWait =>
     refine Or.inr (Or.inr (Or.inr (Or.inl ⟨rfl, ?_⟩)))
-    simp [callerStep, hi0, E, Choreo.expected] at h0
+    simp [callerStep, hi0, E, Choreo.expected, hl] at h0
     simpa using h0
   | cl k =>
     simp only [callerInv, Bool.and_eq_true, Bool.or_eq_true, decide_eq_true_eq] at hci
